@@ -1321,3 +1321,35 @@ func BufLenOf(v ssa.Value) int64 {
 	})
 	return r
 }
+
+// ParamName returns the name of the parameter / captured variable v denotes
+// (directly, or through the local cell a captured parameter is spilled to), or "".
+func ParamName(v ssa.Value) string {
+	switch p := v.(type) {
+	case *ssa.Parameter:
+		return p.Name()
+	case *ssa.FreeVar:
+		return p.Name()
+	case *ssa.UnOp:
+		if p.Op != token.MUL {
+			return ""
+		}
+		switch a := p.X.(type) {
+		case *ssa.FreeVar:
+			return a.Name()
+		case *ssa.Alloc:
+			name := ""
+			for _, r := range *a.Referrers() {
+				if s, ok := r.(*ssa.Store); ok && s.Addr == a {
+					pp, ok := s.Val.(*ssa.Parameter)
+					if !ok {
+						return ""
+					}
+					name = pp.Name()
+				}
+			}
+			return name
+		}
+	}
+	return ""
+}
